@@ -157,6 +157,12 @@ def histories(tier):
                dict(base, only_update_hydraulic_matrix=True)))
     H_.append(("update_reuse_topology_restored", [dict(base), dict(base, only_update_hydraulic_matrix=True, _toggle=("pipe", 0))],
                dict(base, only_update_hydraulic_matrix=True)))
+    # ... and the earlier call with the other topology did not converge (nothing of a failed run may survive it)
+    H_.append(("update_failed_topology_restored", [dict(base, only_update_hydraulic_matrix=True, _toggle=("pipe", -1), _fail=True)],
+               dict(base, only_update_hydraulic_matrix=True)))
+    H_.append(("reuse_failed_topology_restored", [dict(base, only_update_hydraulic_matrix=True, reuse_internal_data=True,
+                                                       _toggle=("pipe", 0), _fail=True)],
+               dict(base, only_update_hydraulic_matrix=True)))
     if tier == "thorough":
         # every ordered pair (earlier call kind, last call kind) and a deterministic sample of triples
         kinds = {"hyd": dict(base), "seq": dict(mode="sequential"), "bid": dict(mode="bidirectional"),
